@@ -2,7 +2,7 @@
 
 Everything here works on resolved entities (def paths, ADT/variant/field names, resolved callees,
 CFG edges) and never on source text."""
-import json, collections, re, sys
+import json, os, collections, re, sys
 
 sys.setrecursionlimit(20000)
 
@@ -456,8 +456,37 @@ class Prov:
                 pass
         self._memo = {}
 
+    def _env_field_ops(self, p):
+        """a read `env.<captured>` of a closure/coroutine environment that was built in this very body (a spliced-in async fn or closure):
+        the operands the captured variable was built from (field-sensitive), else None"""
+        projs = [pr for pr in p["proj"] if pr["k"] != "deref"]
+        if not projs or projs[0]["k"] != "field":
+            return None
+        defs = self.defs.get(p["local"], ())
+        envs = [d for d in defs if d[0] == "assign" and d[1]["rv"]["k"] == "agg" and ("coroutine" in d[1]["rv"] or "closure" in d[1]["rv"]) and d[1]["rv"].get("fields")]
+        if not envs or len(envs) != len(defs):
+            return None
+        ops = []
+        for d in envs:
+            rv = d[1]["rv"]
+            if projs[0]["name"] not in rv["fields"]:
+                return None
+            ops.append(rv["ops"][rv["fields"].index(projs[0]["name"])])
+        return ops, projs[1:]
+
     def place_atoms(self, p, **kw):
         out = set()
+        ef = self._env_field_ops(p)
+        if ef is not None:
+            ops, rest = ef
+            for pr in rest:
+                if pr["k"] == "field":
+                    out.add(("field", pr["of"], pr["name"]))
+                elif pr["k"] == "downcast":
+                    out.add(("variant", pr["variant"]))
+            for o in ops:
+                out |= self.operand_atoms(o, **kw)
+            return out
         for pr in p["proj"]:
             if pr["k"] == "field":
                 out.add(("field", pr["of"], pr["name"]))
@@ -513,6 +542,24 @@ class Prov:
                     for c in cs:
                         out |= const_atoms(c)
                     for p in pl:
+                        ef = self._env_field_ops(p)
+                        if ef is not None:
+                            for pr in ef[1]:
+                                if pr["k"] == "field":
+                                    out.add(("field", pr["of"], pr["name"]))
+                                elif pr["k"] == "downcast":
+                                    out.add(("variant", pr["variant"]))
+                            for o in ef[0]:
+                                if o["k"] == "const":
+                                    out |= const_atoms(o)
+                                else:
+                                    for pr in o["place"]["proj"]:
+                                        if pr["k"] == "field":
+                                            out.add(("field", pr["of"], pr["name"]))
+                                        elif pr["k"] == "downcast":
+                                            out.add(("variant", pr["variant"]))
+                                    st.append(o["place"]["local"])
+                            continue
                         for pr in p["proj"]:
                             if pr["k"] == "field":
                                 out.add(("field", pr["of"], pr["name"]))
@@ -530,12 +577,24 @@ class Prov:
                             out |= self.b.facts.ret_atoms(cb)
                     for a in t["args"]:
                         if a["k"] in ("copy", "move"):
+                            ef = self._env_field_ops(a["place"])
+                            if ef is not None:
+                                for o in ef[0]:
+                                    if o["k"] == "const":
+                                        out |= const_atoms(o)
+                                    else:
+                                        st.append(o["place"]["local"])
+                                        for pr in o["place"]["proj"]:
+                                            if pr["k"] == "field":
+                                                out.add(("field", pr["of"], pr["name"]))
+                                a = {"k": "copy", "place": {"local": None, "proj": ef[1]}}
                             for pr in a["place"]["proj"]:
                                 if pr["k"] == "field":
                                     out.add(("field", pr["of"], pr["name"]))
                                 elif pr["k"] == "downcast":
                                     out.add(("variant", pr["variant"]))
-                            st.append(a["place"]["local"])
+                            if a["place"]["local"] is not None:
+                                st.append(a["place"]["local"])
                         elif a["k"] == "const":
                             out |= const_atoms(a)
                     fo = t.get("func")
@@ -943,10 +1002,17 @@ def _copy_blocks(cj, lo, bo, origin_name, origin_file):
         if b.get("inlined_poll_switch"):
             nb["inlined_poll_switch"] = True
         for st in b["stmts"]:
-            nb["stmts"].append({"lhs": _ren_place(st["lhs"], lo, bo), "rv": _ren_rv(st["rv"], lo, bo), "line": st.get("line")})
+            ns = {"lhs": _ren_place(st["lhs"], lo, bo), "rv": _ren_rv(st["rv"], lo, bo), "line": st.get("line")}
+            if st.get("ret_of"):
+                ns["ret_of"] = [st["ret_of"][0], st["ret_of"][1] + bo]
+            nb["stmts"].append(ns)
         nb["term"] = _ren_term(b["term"], lo, bo)
         out.append(nb)
     return out
+
+
+MAX_SITES = int(os.environ.get("ZV_MSI_SITES", "8"))          # a local fn with up to this many call sites is spliced into each caller
+MAX_MULTI_BLOCKS = int(os.environ.get("ZV_MSI_BLOCKS", "400"))  # ... when it is called more than once, only if it is at most this big (raw blocks)
 
 
 class ViewBuilder:
@@ -992,7 +1058,10 @@ class ViewBuilder:
         b = self.f.bodies.get(callee)
         if b is None or b.kind not in ("Fn", "AssocFn") or callee in taken or self.f.is_derived(b):
             return False
-        if len(sites.get(callee, ())) != 1:
+        nsites = len(sites.get(callee, ()))
+        if nsites < 1 or nsites > MAX_SITES:
+            return False
+        if nsites > 1 and len(self.raw[callee]["blocks"]) + len(self.raw.get(callee + "::{closure#0}", {"blocks": []})["blocks"]) > MAX_MULTI_BLOCKS:
             return False
         if callee == caller or callee in self.in_progress:
             return False
@@ -1062,7 +1131,8 @@ class ViewBuilder:
         ret_target = t["target"]
         for nb in j["blocks"][bo:bo + len(cj["blocks"])]:
             if nb["term"]["k"] == "return":
-                nb["stmts"].append({"lhs": t["dest"], "rv": {"k": "use", "op": {"k": "move", "place": {"local": lo, "proj": [], "ty": cj["locals"][0]["ty"]}}}, "line": line})
+                nb["stmts"].append({"lhs": t["dest"], "rv": {"k": "use", "op": {"k": "move", "place": {"local": lo, "proj": [], "ty": cj["locals"][0]["ty"]}}}, "line": line,
+                                    "ret_of": [cn, blk["id"]]})
                 nb["term"] = {"k": "goto", "target": ret_target} if ret_target >= 0 else {"k": "unreachable"}
         t["orig_target"] = t["target"]
         t["target"] = pre["id"]
